@@ -1,5 +1,5 @@
-(** C10 - encase + glam structs serialise every field at its WGSL offset (partial: see DESIGN.md). *)
-From W2W Require Import Wf Layout C10Spec C10Proof.
+(** C10 - encase + glam structs serialise every field at its WGSL offset. *)
+From W2W Require Import Wf Layout StructSpec C10Spec C10Proof C10Comp.
 
 (** For every member type built from 32-bit scalars, vec2-4, atomics, SQUARE f32 matrices and fixed arrays of
     those: the Rust type the generator chooses under the glam representation is one to which encase assigns
@@ -13,6 +13,44 @@ Theorem C10_member_types : forall m e fuel t r l,
   encase_lty e r = Some l.
 Proof. exact encase_rust_type. Qed.
 Print Assumptions C10_member_types.
+
+(** Composition over whole structs, nested to any depth: for every wf module the generator accepts under the glam
+    representation, OUTSIDE the known-finding class (a non-square matrix somewhere in an emitted struct) and with
+    no @builtin member in a host-shareable struct, every emitted struct deriving ShaderType has - with nested
+    structs looked up by name among the emitted structs, as rustc resolves them - exactly the WGSL layout type as
+    its encase layout type ([C10_ok]): same size, same offset of every field, same strides at every level. *)
+Theorem C10_holds : forall m src inc o out_,
+  wf m = true -> w_mv o = MVGlam -> kf_nonsquare_encase m = false -> host_no_builtins m = true ->
+  gen m src inc o = Ok out_ -> C10_ok m out_ = true.
+Proof. exact C10_ok_gen. Qed.
+Print Assumptions C10_holds.
+
+(** equal layout types have equal sizes, alignments and member offsets (the reading of [C10_ok]) *)
+Theorem C10_equal_layout_numbers : forall n fs gs,
+  lty_eqb (LStruct n fs) (LStruct n gs) = true ->
+  l_size (LStruct n fs) = l_size (LStruct n gs) /\ l_align (LStruct n fs) = l_align (LStruct n gs)
+  /\ l_offsets fs 0 = l_offsets gs 0.
+Proof. intros n fs gs H. apply lty_eqb_eq in H. inversion H; subst. auto. Qed.
+Print Assumptions C10_equal_layout_numbers.
+
+(** non-vacuity: a module with a nested struct, an array of vec3 and a matrix meets every premise, is accepted,
+    and its two structs derive ShaderType *)
+Definition nv_f32 := mkTy None (TScalar (mkScalar SkFloat 4)) 4 4 None.
+Definition nv_v3 := mkTy None (TVector Tri (mkScalar SkFloat 4)) 12 16 None.
+Definition nv_m4 := mkTy None (TMatrix Quad Quad (mkScalar SkFloat 4)) 64 16 None.
+Definition nv_arr := mkTy None (TArray 1 (ASConstant 3) 16) 48 16 None.
+Definition nv_inner := mkTy (Some "Inner") (TStruct [mkMember (Some "a") 0 None 0; mkMember (Some "vs") 3 None 16] 64) 64 16 (Some "inner").
+Definition nv_outer := mkTy (Some "Outer") (TStruct [mkMember (Some "x") 0 None 0; mkMember (Some "i") 4 None 16; mkMember (Some "mm") 2 None 80] 144) 144 16 (Some "outer").
+Definition nv_mod := mkModule [nv_f32; nv_v3; nv_m4; nv_arr; nv_inner; nv_outer] [] []
+  [mkGlobal (Some "u") (SpStorage (mkAccess true true false)) (Some (0%N, 0%N)) 5] [] [] true.
+Definition nv_opts := mkOptions false false true false MVGlam.
+Example C10_premises_satisfiable : exists out_,
+  wf nv_mod = true /\ kf_nonsquare_encase nv_mod = false /\ host_no_builtins nv_mod = true /\
+  gen nv_mod "" None nv_opts = Ok out_ /\
+  map (fun s => has_derive s "encase::ShaderType") (o_structs out_) = [true; true] /\
+  lenv_get (encase_env (o_structs out_) []) "Outer" =
+    Some (LStruct "Outer" [LScalar; LStruct "Inner" [LScalar; LArr (LVec 3) 3]; LMat 4 4]).
+Proof. eexists. repeat split; vm_compute; reflexivity. Qed.
 
 (** Outside the theorem (known finding): a non-square matrix under glam falls back to nested arrays, which
     encase lays out as an array of arrays. *)
